@@ -84,9 +84,11 @@ type sess struct {
 	unstable bool   // a quiescence wait timed out: the run says nothing
 	dispID   string // goroutine id of this queue's dispatcher
 	onStep   func(Step)
-	opts     []Opt // the NewQueue options, in the order they were passed
-	hung     bool  // a synchronous call of the script never returned: the script ends there
-	inBatch  bool  // inside a batch stimulus: act and wait for quiescence, but do not observe or record
+	opts     []Opt            // the NewQueue options, in the order they were passed
+	sib      *workqueue.Queue // a second queue built from the same option values (nil: none)
+	hadSib   bool
+	hung     bool // a synchronous call of the script never returned: the script ends there
+	inBatch  bool // inside a batch stimulus: act and wait for quiescence, but do not observe or record
 	onIntent func(Stim)
 	stopped  bool
 }
@@ -212,7 +214,12 @@ func effectiveCfg(opts []Opt) (int, int) {
 
 func newSess(W, L int) *sess { return newSessOpts([]Opt{{"w", W}, {"l", L}}) }
 
-func newSessOpts(opts []Opt) *sess {
+func newSessOpts(opts []Opt) *sess { return newSessShared(opts, false) }
+
+// newSessShared: with sibling = true a second queue is built FROM THE SAME OPTION VALUES (the same slice of
+// WorkQueueOption) before the queue under test: an option value is a description that may configure any number of
+// queues, which must stay independent (a "sib" stimulus resizes the sibling; nothing may change here).
+func newSessShared(opts []Opt, sibling bool) *sess {
 	W, L := effectiveCfg(opts)
 	s := &sess{W: W, L: L, opts: opts, startCh: make(chan int, 4096)}
 	quiesce()
@@ -228,6 +235,14 @@ func newSessOpts(opts []Opt) *sess {
 			qo[i] = workqueue.WithQueueLength(o.N)
 		}
 	}
+	if sibling {
+		s.hadSib = true
+		s.sib = workqueue.NewQueue(qo...)
+		quiesce()
+		for id := range dispState {
+			old[id] = true
+		}
+	}
 	s.q = workqueue.NewQueue(qo...)
 	if !quiesce() {
 		s.unstable = true
@@ -239,6 +254,12 @@ func newSessOpts(opts []Opt) *sess {
 	}
 	return s
 }
+
+// prioOption returns ONE option value per priority and session, reused for every Enqueue with that priority (an
+// Enqueue option is a description too).
+func mkOptCache[T any](_ T) map[int]T { return map[int]T{} }
+
+var prioOptions = mkOptCache(workqueue.WithPriority(0))
 
 // dispatcherIdle reports whether this queue's dispatcher goroutine is parked at its select (valid right after a
 // quiescence wait).  Dequeue and SetPriority are specified for that situation only (C16).
@@ -363,7 +384,15 @@ func (s *sess) do(st Stim) Obs {
 		// WithPriority is left out (for an item with an adjust function the priority then comes from that function alone)
 		eo := sliceOf(workqueue.WithName(strconv.Itoa(it.idx)))
 		if !(it.prio == 1 && it.idx%2 == 1) {
-			eo = append(eo, workqueue.WithPriority(it.prio))
+			po, ok := prioOptions[it.prio]
+			if !ok {
+				if len(prioOptions) > 64 {
+					clear(prioOptions)
+				}
+				po = workqueue.WithPriority(it.prio)
+				prioOptions[it.prio] = po
+			}
+			eo = append(eo, po) // the same option value for every item of that priority
 		}
 		if it.adj {
 			eo = append(eo, workqueue.WithAdjustPriority(func() int {
@@ -455,6 +484,15 @@ func (s *sess) do(st Stim) Obs {
 			res, note = -9, "caller blocked: the call has not returned at a quiescent moment"
 		} else if note != "" {
 			res = 2
+		}
+	case "sib":
+		// ResizeQueueLength on the sibling queue (built from the same option values): no effect on this queue
+		if s.sib != nil {
+			if !s.call(func() { s.sib.ResizeQueueLength(st.A) }, &note) {
+				res, note = -9, "caller blocked: ResizeQueueLength on the sibling queue has not returned"
+			} else if note != "" {
+				res = 2
+			}
 		}
 	case "adj":
 		if st.A >= 0 && st.A < len(s.items) {
@@ -595,6 +633,10 @@ func (s *sess) finishAll(limit int) {
 
 // close releases the queue's goroutines when that is safe (everything accepted has finished), else leaks them.
 func (s *sess) close() {
+	if s.sib != nil {
+		s.sib.Stop() // the sibling never got any work: an idle Stop
+		s.sib = nil
+	}
 	if s.stopped || s.hung {
 		return
 	}
